@@ -462,17 +462,9 @@ func c16r2(c *core.Ctx) {
 					}
 				}
 			}
-			inner, isR2 := x.(*ast.RangeStmt)
-			if !isR2 || inner.Value == nil {
+			src, innerBody, isLoop := elementLoop(m, x)
+			if !isLoop {
 				return true
-			}
-			src := inner.X
-			if id, isID := ast.Unparen(src).(*ast.Ident); isID {
-				if v, okv := m.Info.ObjectOf(id).(*types.Var); okv {
-					for _, d := range localDefsOf(m, fn, v) {
-						src = d
-					}
-				}
 			}
 			ix, isIx := ast.Unparen(src).(*ast.IndexExpr)
 			if !isIx || fieldKeyOf(m, ix.X) != "observerManager.observers" {
@@ -481,7 +473,7 @@ func c16r2(c *core.Ctx) {
 			if m.ExprString(ix.Index) != key {
 				return true
 			}
-			ast.Inspect(inner.Body, func(y ast.Node) bool {
+			ast.Inspect(innerBody, func(y ast.Node) bool {
 				if as, isAs := y.(*ast.AssignStmt); isAs {
 					for i, l := range as.Lhs {
 						if fieldKeyOf(m, l) == "observerData.id" && i < len(as.Rhs) {
